@@ -79,6 +79,10 @@ def oracle(case):
                 prows.append(rest[k:k + case["wrap"]])
     spec = lastext.simple_spec(curves, prows, wrap="YES" if case.get("wrap") else "NO", null=case["null_text"], dlm=case.get("dlm"))
     spec["sections"][-1]["ncols"] = c
+    if case.get("runon"):
+        # fixed-width columns: a negative value (the NULL, say) runs into the value before it: 1670.000-999.250-999.250
+        for ln in spec["sections"][-1]["lines"]:
+            ln["seps"] = ["" if t.startswith("-") else " " for t in ln["toks"][1:]]
     if case.get("dlm") == "COMMA":
         for ln in spec["sections"][-1]["lines"]:
             ln["seps"] = [","] * max(0, len(ln["toks"]) - 1)  # no blank after the comma
@@ -94,7 +98,15 @@ def oracle(case):
     S_.apply_scaffold(spec, case.get("scaffold"))
     text = lastext.render(spec)
     policy = case["policy"]
-    las = read_text(text, engine=case["engine"], null_policy=policy, mnemonic_case=case.get("mnemonic_case", "upper"))
+    rkw = {}
+    if case.get("keep_engine"):
+        # the documented way to keep the fast engine for any policy
+        rkw["use_normal_engine_for_wrapped"] = False
+        out.cls("use_normal_engine_for_wrapped=False")
+    if case.get("runon"):
+        rkw["accept_regexp_sub_recommendations"] = False
+        out.cls("run-on-negatives")
+    las = read_text(text, engine=case["engine"], null_policy=policy, mnemonic_case=case.get("mnemonic_case", "upper"), **rkw)
     out.cls("mc-" + case.get("mnemonic_case", "upper"))
     if declared != c:
         out.cls("undeclared-columns")
@@ -186,6 +198,15 @@ def read_cases(draw):
         case["declared"] = draw(st.integers(0, c))
     if not wrap and draw(st.integers(0, 4)) == 0:
         case["dlm"] = "COMMA"
+    elif not wrap and textcol is None and draw(st.integers(0, 4)) == 0:
+        case["keep_engine"] = True
+    elif not wrap and textcol is None and nullx < 0 and draw(st.integers(0, 3)) == 0:
+        # every row carries the (negative) NULL glued to its neighbour
+        for rw in rows:
+            if len(rw) >= 2:
+                rw[-1] = null_text
+        if all(not t.startswith("-") or "e-" not in t.lower() for rw in rows for t in rw) and all("E-" not in t and "e-" not in t for rw in rows for t in rw):
+            case["runon"] = True
     from vlib import strategies as S_
     case["scaffold"] = draw(S_.scaffold())
     case["mnemonic_case"] = draw(st.sampled_from(["upper", "upper", "lower", "preserve"]))
